@@ -142,6 +142,14 @@ def gen_c01(rng, fs, i, cfg):
             if rng.random() < 0.4:
                 # ... or buffered data cannot be forced out after a chunk was written
                 op["fault"] = {"kind": "F10", "flush": rng.randint(0, max(0, len(op["chunks"]) - 1))}
+        elif op["form"] == "array" and rng.random() < 0.5:
+            # one dense-array loader object, two creations (second destination, same matrix)
+            import copy as _copy
+            op["loader_object"] = "keep"
+            op2 = _copy.deepcopy(op)
+            op2["loader_object"] = "reuse"
+            op2.update(file=fid, path="/again%d" % i, mode="a", fault=None)
+            _ctx(cfg).setdefault("pending01", []).append(op2)
         elif len(op["layout"]["names"]) >= 2 and rng.random() < 0.06 and op["form"] != "array":
             # the caller keeps ONE bin-table object, creates, edits it in place (drops the last
             # chromosome) and creates again
@@ -369,6 +377,9 @@ def gen_c07(rng, fs, i, cfg):
         # an input (or output) open fails, possibly several times in a row: the merge may fail,
         # it must never return wrong data
         op["fault"] = {"kind": "F4", "open": rng.randint(0, 6 + 4 * len(ins)), "width": rng.choice([1, 1, 2, 3, 4])}
+        if rng.random() < 0.4:
+            # ... or an I/O error surfaces when a written chunk is flushed
+            op["fault"] = {"kind": "F10", "flush": rng.randint(0, 5)}
     ctx["merged"] = True
     ctx["last_merge"] = op
     return op
@@ -772,6 +783,10 @@ def gen_c06(rng, fs, i, cfg):
     fid = rng.choice(["f0", "f0", "f1"])
     op.update(file=fid, path=_dest(rng, fs, fid, prefer_new=0.8), mode="w" if rng.random() < 0.1 else "a",
               slash=rng.random() < 0.7, fault=None)
+    if rng.random() < 0.06 and cfg.get("faults", True):
+        # an I/O error surfaces at a flush of a temporary chunk file or of the final pass: the
+        # ingestion may fail, it must never report success over wrong sums
+        op["fault"] = {"kind": "F10", "flush": rng.randint(0, 2 * len(op["chunks"]) + 2)}
     return op
 
 
@@ -817,6 +832,10 @@ def gen_scool(rng, cfg, fault=False):
         f = dict(rng.choice(pl))
         f["cell"] = cell
         op["fault"] = f
+        if rng.random() < 0.2:
+            # an I/O error surfaces when a chunk of some cell is flushed: the file may be left
+            # incomplete, no cell may hold a chunk twice
+            op["fault"] = {"kind": "F10", "flush": rng.randint(0, 2 * len(cells))}
     return op
 
 
